@@ -62,6 +62,8 @@ def run(ctx):
         ks, names = make_set(rng, rng.randrange(1, 9), private=False)
         kids = [k.kid for k in ks.keys]
         probes = kids + [None, "unknown", "", 7, True, ["x"], kids[0] + "x"]
+        # other names a key could be known by are not its kid: the RFC 7638 thumbprint of a member that carries an explicit kid
+        probes += [k.thumbprint() for k in ks.keys if k.kid != k.thumbprint()][:3]
         for kid in probes:
             try:
                 lines.append(f"key.getbykid {J.enc_keyarg(ks)} {enc_jval(kid)}")
@@ -94,9 +96,13 @@ def run(ctx):
         for i, (kn, alg) in enumerate(names):
             priv = J.native_priv(kn)
             true_kid = ks.keys[i].kid
-            for kid_mode in ("right", "absent", "unknown", "other-key", "nonstring"):
+            for kid_mode in ("right", "absent", "unknown", "other-key", "nonstring", "thumbprint-alias"):
                 if kid_mode == "right":
                     hk = {"kid": true_kid}
+                elif kid_mode == "thumbprint-alias":
+                    if ks.keys[i].thumbprint() == true_kid:
+                        continue
+                    hk = {"kid": ks.keys[i].thumbprint()}     # names the right key by something that is not its kid
                 elif kid_mode == "absent":
                     hk = {}
                 elif kid_mode == "unknown":
@@ -128,11 +134,29 @@ def run(ctx):
                                 return f"token verified although its kid ({kid_mode}) does not name the signing key in a set of {n}"
                             if kid_mode in ("unknown", "absent", "nonstring") and impl[1] not in ("InvalidKeyIdError", "ValueError"):
                                 return f"kid {kid_mode}: expected InvalidKeyIdError, got {impl[1]}"
-                            if kid_mode in ("unknown", "absent") and impl[1] != "InvalidKeyIdError":
+                            if kid_mode in ("unknown", "absent", "thumbprint-alias") and impl[1] != "InvalidKeyIdError":
                                 return f"kid {kid_mode}: expected InvalidKeyIdError, got {impl[1]}"
                             return None
                         c2.expect = expect
                         _batch.append(c2)
+    # a member's explicit kid that happens to be the thumbprint of an EARLIER member (itself known under another kid):
+    # the kid names the later key, for verification and for signing
+    for _ in range(3 if ctx.tier == "quick" else 20):
+        kn_a, kn_b = rng.sample(["p256", "p256b", "p384"], 2) if rng.random() < 0.5 else rng.sample(["oct32", "oct16", "oct24"], 2)
+        alg_b = {"p256": "ES256", "p256b": "ES256", "p384": "ES384"}.get(kn_b, "HS256")
+        first = K.key(kn_a, private=False if not kn_a.startswith("oct") else True, kid="first-key")
+        later = K.key(kn_b, private=False if not kn_b.startswith("oct") else True, kid=first.thumbprint())
+        ks = KeySet([first, later])
+        for kind in ("compact", "flat", "general"):
+            c = J.build_valid(rng, alg_b, kn_b, J.native_priv(kn_b), kind, b"payload", 0, {"kid": later.kid}, None, 1 if kind == "general" else None)
+            c2 = J.VCase(c.kind, c.value, ks, J.ALLOW_ALL, None, "kid-equals-earlier-thumbprint", c.meta)
+
+            def expect2(case, impl):
+                if impl[0] != "ok":
+                    return f"a token naming the second key's kid (which equals the first key's thumbprint) was not verified with the second key: {impl[1]}"
+                return None
+            c2.expect = expect2
+            _batch.append(c2)
     J.run_verify_cases(ctx, "keyset-consume", _batch, check_c01=True, prop="C14")
 
     # ---------------- (c) production with key sets (random.choice on a tape)
@@ -180,11 +204,11 @@ def jwe_consume(ctx, n_sets):
         ks = KeySet(keys)
         for i, (alg, kn) in enumerate(chosen):
             enc = "A256CBC-HS512" if alg == "dir" else rng.choice(["A128GCM", "A128CBC-HS256", "A256GCM"])
-            for kid_mode in ("right", "absent", "unknown", "other-key", "nonstring"):
+            for kid_mode in ("right", "absent", "unknown", "other-key", "nonstring", "thumbprint-alias"):
                 if kid_mode == "other-key" and n < 2:
                     continue
                 hk = {"right": {"kid": keys[i].kid}, "absent": {}, "unknown": {"kid": "no-such-kid"},
-                      "other-key": {"kid": keys[(i + 1) % n].kid}, "nonstring": {"kid": 7}}[kid_mode]
+                      "other-key": {"kid": keys[(i + 1) % n].kid}, "nonstring": {"kid": 7}, "thumbprint-alias": {"kid": keys[i].thumbprint()}}[kid_mode]
                 for ser, pos in (("compact", "protected"), ("flat", "protected"), ("general", "protected"), ("flat", "unprotected"),
                                  ("general", "unprotected"), ("flat", "recipient"), ("general", "recipient")):
                     if pos != "protected" and not hk:
@@ -204,7 +228,7 @@ def jwe_consume(ctx, n_sets):
                                 return None
                             if impl[0] == "ok":
                                 return f"JWE decrypted although its kid ({kid_mode}) does not name the recipient key in a set of {n}"
-                            if kid_mode in ("unknown", "absent") and impl[1] != "InvalidKeyIdError":
+                            if kid_mode in ("unknown", "absent", "thumbprint-alias") and impl[1] != "InvalidKeyIdError":
                                 return f"kid {kid_mode}: expected InvalidKeyIdError, got {impl[1]}"
                             return None
                         c2.expect = expect
